@@ -756,6 +756,23 @@ class Interp:
         return {}
 
     # arithmetic ----------------------------------------------------------------
+    def carry_test(self, st, op, a, b, inst, span):
+        """r = x +wrapping y (unsigned) carried out  <=>  r < x  <=>  r < y.  An ordering test between r and one of its own operands is a
+        carry test; it must be one of  r < x, x > r (carry)  or  r >= x, x <= r (no carry).  The other four forms differ from the carry
+        exactly when the other operand is 0 (r == x without a carry), so they are accepted only if that operand is known non-zero."""
+        for r, x, r_left in ((a, b, True), (b, a, False)):
+            d = G.df.get(r)
+            if not d or d[0] != "wadd" or x not in (d[1], d[2]):
+                continue
+            other = d[2] if x == d[1] else d[1]
+            if d[1] == d[2]:
+                other = x
+            exact = (op in ("Lt", "Ge")) if r_left else (op in ("Gt", "Le"))
+            O = st.get_iv(other)
+            self.ctx.oblige("carry-test equals the carry of the wrapping addition", exact or O[0] >= 1, inst, span,
+                            "comparison %s between a wrapping sum and its own operand; it differs from the carry when the other addend (%s) is 0" % (op, O))
+            return
+
     def wrap_iv(self, ty, lo, hi):
         r = trange(ty)
         if r is None:
@@ -778,6 +795,8 @@ class Interp:
             return new_top()
         A, B = st.get_iv(a), st.get_iv(b)
         if op in ("Eq", "Ne", "Lt", "Le", "Gt", "Ge"):
+            if inst is not None and op in ("Lt", "Le", "Gt", "Ge"):
+                self.carry_test(st, op, a, b, inst, span)
             return self.cmp(st, op, a, b)
         tr = trange(ty)
         if op in ("Add", "Sub", "Mul") and inst is not None and inst["krate"] in CRATES and self.ctx.mode == "rel":
@@ -800,6 +819,8 @@ class Interp:
                 s = self.sum_atom(st, a, b)
                 st.set_iv(s, lo, hi)
                 return s
+            if tr is not None and tr[0] == 0:
+                return new_int(lo, hi, ("wadd", a, b))      # unsigned sum that may wrap: remembered for the carry-test rule
             return new_int(lo, hi)
         if op in ("Sub", "SubUnchecked"):
             l0, h0 = A[0] - B[1], A[1] - B[0]
